@@ -164,12 +164,44 @@ func (c *Ctx) checkTokenAuth() {
 			sigSlice = sl
 		}
 	})
+	// the parsing phase in a helper (`tl, signature, err := parseToken(token)`): the slice and its
+	// length test live there; the authenticator goes on only when the helper reported no error
+	var parseFn *ssa.Function
+	var parseCall *ssa.Call
+	var parseTok *ssa.Parameter
+	if sigSlice == nil {
+		core.AllInstrs(fn, func(in ssa.Instruction) {
+			call, ok := in.(*ssa.Call)
+			if !ok || parseFn != nil {
+				return
+			}
+			g := call.Call.StaticCallee()
+			if g == nil || !core.InModule(g) || len(g.Blocks) == 0 || errIndex(g.Signature) < 0 {
+				return
+			}
+			for i, a := range call.Call.Args {
+				if isTok(a) && i < len(g.Params) {
+					p := g.Params[i]
+					core.AllInstrs(g, func(x ssa.Instruction) {
+						if sl, ok := x.(*ssa.Slice); ok && core.Strip(sl.X) == ssa.Value(p) && sl.High != nil {
+							sigSlice, parseFn, parseCall, parseTok = sl, g, call, p
+						}
+					})
+				}
+			}
+		})
+	}
 	for _, sp := range succ {
 		ret := sp.at
 		base := fk(fn) + ": success return"
 		// a. length
+		lenFn, lenTok := fn, isTok
+		if parseFn != nil {
+			lenFn = parseFn
+			lenTok = func(v ssa.Value) bool { return core.Strip(v) == ssa.Value(parseTok) }
+		}
 		gLen := core.Guard{Name: "len(token)>=bound", Match: func(a core.CondAtom) (bool, bool) {
-			if a.Op != token.LSS || !isLenOf(isTok)(a.X) {
+			if a.Op != token.LSS || !isLenOf(lenTok)(a.X) {
 				return false, false
 			}
 			if sigSlice != nil && !sameValue(a.Y, sigSlice.High, 0) {
@@ -177,10 +209,31 @@ func (c *Ctx) checkTokenAuth() {
 			}
 			return true, false
 		}}
-		ok, cnt := core.GuardedBy(fn, ret, gLen)
-		r.Check(ok && cnt[0] > 0 && sigSlice != nil, "C12.1-token-gates", base+" / length covers the signature slice", c.pos(ret), "", "a token shorter than header+signature is not refused before it is sliced (crash) or compared")
+		if parseFn == nil {
+			ok, cnt := core.GuardedBy(fn, ret, gLen)
+			r.Check(ok && cnt[0] > 0 && sigSlice != nil, "C12.1-token-gates", base+" / length covers the signature slice", c.pos(ret), "", "a token shorter than header+signature is not refused before it is sliced (crash) or compared")
+		} else {
+			// in the helper every return without error is behind the length test; here the success
+			// return is behind the helper's success
+			okH := true
+			nH := 0
+			for _, hs := range successReturns(parseFn) {
+				nH++
+				saved := core.NoLift
+				core.NoLift = true
+				ok, cnt := core.GuardedBy(parseFn, hs.at, gLen)
+				core.NoLift = saved
+				if !ok || cnt[0] == 0 {
+					okH = false
+				}
+			}
+			r.Check(okH && nH > 0 && c.afterSuccessOf(fn, parseCall, ret), "C12.1-token-gates", base+" / length covers the signature slice", c.pos(ret), "", "a token shorter than header+signature is not refused before it is sliced (crash) or compared")
+		}
 		if sigSlice != nil {
-			ok2, c2 := core.GuardedBy(fn, sigSlice, gLen)
+			saved := core.NoLift
+			core.NoLift = parseFn != nil
+			ok2, c2 := core.GuardedBy(lenFn, sigSlice, gLen)
+			core.NoLift = saved
 			r.Check(ok2 && c2[0] > 0, "C12.1b-token-slice-bounded", fk(fn)+": token[dataSize:dataSize+sha256.Size]", c.pos(sigSlice), "slice bound dominated by the length test on the same expression", "the signature slice of the token is taken without a dominating length test: a short token panics the read loop")
 		}
 		// b. MAC comparison
@@ -200,7 +253,7 @@ func (c *Ctx) checkTokenAuth() {
 			}
 			return false, false
 		}}
-		ok, cnt = core.GuardedBy(fn, ret, gMac)
+		ok, cnt := core.GuardedBy(fn, ret, gMac)
 		r.Check(ok && cnt[0] > 0, "C12.1-token-gates", base+" / constant-time MAC equality", c.pos(ret), "", "a token is accepted without a constant-time comparison of its signature with the recomputed MAC")
 		// c. level
 		gLvl := core.LessGuard("AuthLevel<=LevelRoot", core.IsConstOf(levelRoot), core.Any, false)
